@@ -366,3 +366,43 @@ TEXT["C16"] = node_text("The handler is scripted (keys/versions parsed from item
                         "position, three invalidation relations, three recipient predicates, accepting / discarding / failing "
                         "handlers); its call log is part of every trace event.",
                         "TLA+ spec + TLC (MC_Node invariant MonC16, Backlog!FillOk with length prefix) + trace validation with a scripted BroadcastHandler")
+
+ALLFLAGS = ["--forge", "--junk", "--resize"]
+PROPS["C06"] = {
+    "level": "exploration",
+    "monitors": ["C06"],
+    "profiles": ["dev", "release"],
+    "mc": node_mc("C06"),
+    "drivers": {
+        "quick": [rnd(["--codecs", ALLC] + ALLFLAGS, 3), rnd(["--codecs", ALLC] + ALLFLAGS, 2, profile="release"),
+                  rnd(["--codecs", SERDE] + ALLFLAGS, 2, conformance=False),
+                  rnd(["--codecs", SERDE] + ALLFLAGS, 1, conformance=False, profile="release"),
+                  {"args": ["twin", "--runs", "20", "--steps", "200"], "shards": 1},
+                  {"args": ["cfgsweep"], "shards": 1}, {"args": ["cfgsweep"], "shards": 1, "profile": "release"}],
+        "thorough": [rnd(["--codecs", ALLC] + ALLFLAGS, 8, runs=60, steps=500),
+                     rnd(["--codecs", ALLC] + ALLFLAGS, 6, runs=60, steps=500, profile="release"),
+                     rnd(["--codecs", SERDE] + ALLFLAGS, 4, runs=60, steps=500, conformance=False),
+                     rnd(["--codecs", SERDE] + ALLFLAGS, 4, runs=60, steps=500, conformance=False, profile="release"),
+                     {"args": ["cfgsweep", "--full"], "shards": 1, "profile": "release", "seed_fixed": 1},
+                     {"args": ["cfgsweep"], "shards": 1}],
+    },
+    "rule": "cases = public calls executed under catch_unwind (debug-assertion and release builds, hand-written and serde codecs) "
+            "plus Config constructor calls; distinct/non-trivial = distinct states of the trace specification (one per call with "
+            "its full observation) plus model states",
+}
+TEXT["C06"] = {
+    "level_text": ("Exploration. The state-dependent part - which call histories reach which debug assertion - is decided on the "
+                   "specification: FocaNode carries the assertion state (send_buf capacity vs max_packet_size is the only assertion "
+                   "whose truth depends on history; Step yields Panic when it would trip) and NoPanic is an invariant of MC_Node "
+                   "over all public calls incl. set_config changing the packet size and forged/stale timers. The byte-level and "
+                   "arithmetic part cannot be decided by a TLA+ model and is explored on the real code: every call of long random "
+                   "histories (all public methods, random/truncated/bit-flipped bytes up to twice the packet size, adversarial "
+                   "well-formed headers, incarnations at 0/65534/65535, forged timers with arbitrary tokens, 3 hand-written and "
+                   "the 2 serde codecs) runs under catch_unwind in a debug-assertion build (overflow checks on) and in a release "
+                   "build; a panic is recorded as the call's result and reported by TLC from the trace. Config::new_lan/new_wan: "
+                   "boundary + 2*10^5 random sizes (quick), all 2^32 sizes for both constructors (thorough, release)."),
+    "level_note": ("Trusted base: catch_unwind observing every panic (aborts would kill the driver: exit 2); the harness' own "
+                   "Codec/Runtime/BroadcastHandler/Identity do not panic. Random exploration is a sample of the input space; "
+                   "alloc-related aborts are out of scope as the property says."),
+    "technique": "TLA+ spec + TLC (MC_Node invariant NoPanic on the assertion state) + random/junk-byte histories under catch_unwind in debug and release builds, validated as traces; exhaustive Config constructor sweep",
+}
